@@ -1,6 +1,6 @@
 SPECIFICATION Spec
 INVARIANT Report
 CONSTANTS
-  MaxSteps = 4000
+  MaxSteps = 20000
   InputFile = "irsem_in.json"
 CHECK_DEADLOCK FALSE
